@@ -328,6 +328,10 @@ def replay_segments_case(case):
         variants.append((None, plan))
     for flip, dq in variants:
         fd = to_fd(rec, seed, tm, flip_be=flip, daqmx=dq, manyprops=mp)
+        if case.get("metapad"):
+            for j_, sg_ in enumerate(fd["segs"]):
+                if sg_["meta"] and (j_ + case["metapad"]) % 2 == 0:
+                    sg_["metapad"] = 1 + (case["metapad"] + 3 * j_) % 9
         e = enc.encode(fd, seed)
         res = read_modes(e.data, case["modes"], TdmsFile, daqmx=bool(dq))
         for mode, view in res.items():
